@@ -663,10 +663,23 @@ impl<E: Effect> Executor<E> {
 
         self.processes.insert(id, process);
 
-        // Inject heap data and populate locals with captures
+        // Inject the heap data once, for the captures and the argument together: their heap
+        // indices all address `heap_data` (see `Worker::handle_action`), and injecting it per value
+        // would allocate a surplus copy of every slot that nothing ever references or reclaims.
         let captures_count = captures.len();
-        for value in captures {
-            let injected = self.inject_heap_data(value, &heap_data)?;
+        let mut bundle = captures;
+        bundle.push(argument);
+        let injected = self.inject_heap_data(Value::tuple(crate::types::NIL, bundle), &heap_data)?;
+        let Value::Tuple(_, fields) = injected else {
+            unreachable!("inject_heap_data preserves the value's shape")
+        };
+        let mut injected_captures = fields.to_vec();
+        let injected_arg = injected_captures
+            .pop()
+            .expect("bundle always holds the argument");
+
+        // Populate locals with captures
+        for injected in injected_captures {
             // Injected into rooted storage (the new frame's locals).
             self.retain(&injected);
             let process = self
@@ -676,7 +689,6 @@ impl<E: Effect> Executor<E> {
         }
 
         // Push argument onto stack
-        let injected_arg = self.inject_heap_data(argument, &heap_data)?;
         self.retain(&injected_arg);
         let process = self
             .get_process_mut(id)
